@@ -16,6 +16,23 @@ mod adaptors;
 
 use std::io::{BufRead, BufWriter, Write};
 
+/// length of the file up to and including its last newline
+fn complete_prefix_len(path: &str) -> u64 {
+    use std::io::{Read, Seek, SeekFrom};
+    let mut f = match std::fs::File::open(path) { Ok(f) => f, Err(_) => return 0 };
+    let len = f.metadata().map(|m| m.len()).unwrap_or(0);
+    let mut end = len;
+    let mut buf = vec![0u8; 65536];
+    while end > 0 {
+        let start = end.saturating_sub(buf.len() as u64);
+        let n = (end - start) as usize;
+        if f.seek(SeekFrom::Start(start)).is_err() || f.read_exact(&mut buf[..n]).is_err() { return len; }
+        if let Some(p) = buf[..n].iter().rposition(|c| *c == b'\n') { return start + p as u64 + 1; }
+        end = start;
+    }
+    0
+}
+
 fn usage() -> ! {
     eprintln!("usage: harness <driver> <in.ndjson> <out.ndjson> [seed]");
     std::process::exit(2)
@@ -48,6 +65,9 @@ fn main() {
                 if !(libc::WIFEXITED(status) && libc::WEXITSTATUS(status) == 0) {
                     use std::io::Seek;
                     out.flush().unwrap();
+                    // the child may have died in the middle of a record: cut the file back to the last complete line
+                    let keep = complete_prefix_len(&args[3]);
+                    let _ = out.get_mut().set_len(keep);
                     let _ = out.get_mut().seek(std::io::SeekFrom::End(0));
                     let n = hist["ops"].as_array().map(|a| a.len()).unwrap_or(0);
                     writeln!(out, "{}", serde_json::json!({"h": hist["h"], "i": n + 1, "op": "abort", "b": 0, "calls": [], "q": 0, "t": 0, "ret": "abort",
@@ -81,6 +101,8 @@ fn main() {
                 if !done || !(libc::WIFEXITED(status) && libc::WEXITSTATUS(status) == 0) {
                     use std::io::Seek;
                     out.flush().unwrap();
+                    let keep = complete_prefix_len(&args[3]);
+                    let _ = out.get_mut().set_len(keep);
                     let _ = out.get_mut().seek(std::io::SeekFrom::End(0));
                     writeln!(out, "{}", serde_json::json!({"h": prog["h"], "i": 1, "op": "run", "result": if done { "crash" } else { "hang" }, "steps": [], "blocked": [], "deviations": 0, "nthreads": 0, "panic": "", "spinners": [], "tticks": 0, "spincheck": false, "final_pos": -1, "pos0": 0, "frames": [], "framecheck": false, "nbars": 0, "sumcheck": false})).unwrap();
                 }
